@@ -72,6 +72,8 @@ func main() {
 		rolesMode(r, sk)
 	case "progress":
 		progressMode(r, sk)
+	case "readstorm":
+		readStormMode(r, sk)
 	default:
 		fmt.Fprintln(os.Stderr, "unknown mode", r.Mode)
 		os.Exit(2)
